@@ -32,7 +32,7 @@ RULE = ("cases: (n, flag vector) pairs; executions: for each, the well-formed li
 ASSUMPTIONS = ["numeric tokens are drawn from a finite alphabet + seed-derived values; names have no spaces",
                "tokens such as '1.0' or '1_0' in a flag column are not generated (their status as integers is not specified)"]
 REQUIRED_CLASSES = ['eof', 'rejected-count', 'rejected-flag', 'ok', 'reinterpreted-as-other-n', 'n=0', 'n=12',
-                    'roundtrip-ascii', 'roundtrip-pickle', 'roundtrip-dict', 'name-40', 'tabs', 'negative-and-placeholder']
+                    'roundtrip-ascii', 'roundtrip-pickle', 'roundtrip-dict', 'name-40', 'tabs', 'negative-and-placeholder', 'earlier-sources-rechecked']
 
 FLAGS = (0, 1, 2, 3, 4, 9)
 BADFLAGS = ['5', '8', '10', '-1', '1.5', '7']
@@ -118,6 +118,9 @@ def _cmp_ok(exp, s):
     return None
 
 
+_ALIVE = []
+
+
 def _judge(rec, line, sub, tag):
     exp = parseref.parse(line)
     got, s = _outcome(line)
@@ -130,6 +133,17 @@ def _judge(rec, line, sub, tag):
                       {'line': line, 'expected': exp[:2], 'got': got, 'why': tag})
         return None
     if exp[0] == 'ok':
+        # sources parsed earlier and still alive must not be touched by a later parse
+        for old_s, old_exp, old_line in _ALIVE:
+            rec.ev()
+            if _cmp_ok(old_exp, old_s):
+                rec.violation('from_ascii|earlier-source-overwritten', sub, {'earlier_line': old_line, 'problem': _cmp_ok(old_exp, old_s), 'parsed_now': line})
+                del _ALIVE[:]
+                break
+        _ALIVE.append((s, exp, line))
+        if len(_ALIVE) > 3:
+            _ALIVE.pop(0)
+            rec.cls('earlier-sources-rechecked')
         bad = _cmp_ok(exp, s)
         if bad:
             rec.violation('from_ascii|mis-assigned|%s' % bad.split('<')[0], sub,
@@ -176,6 +190,7 @@ def _roundtrips(rec, s, sub):
 
 
 def run_case(ctx, case, rec, d):
+    del _ALIVE[:]
     vals = ctx['vals']
     for k, (n, flags) in enumerate(case['items']):
         idx = case['first'] + k
